@@ -65,6 +65,8 @@ class C18(Machine):
                   "ntips": rng.choice([2, 2, 3, 4, 5, 8, 13, 21, 40]), "birth": birth, "death": death,
                   "with_namespace": rng.random() < 0.5, "ns_fill": rng.randrange(6), "pop_size": rng.choice([None, 1, 1, 0.5, 10, 1000]),
                   "nspecies": nsp, "genes": [rng.randint(1, 5) for _ in range(nsp)],
+                  # "all numbers of genes per species": one species of a mapping-based call may have no sampled gene at all
+                  "zero_species": rng.randrange(nsp) if rng.random() < 0.15 else None,
                   "species_tree": gen.ultrametric_spec(rng, ["S%d" % i for i in range(nsp)]),
                   "edge_pop": rng.random() < 0.5, "root_len": rng.choice([None, None, 0.25, 2.0]), "junk": rng.choice([0, 0, 7, 101, 1000, 4096]),
                   "sd": rng.choice([0.0, 0.0, 0.1]), "period": rng.choice([None, 0.1, 1.0, 5.0]),
@@ -135,11 +137,14 @@ class C18(Machine):
                     for k, nd in enumerate(rawtree.raw_nodes(stree)):
                         nd.edge.pop_size = [0.5, 1.0, 2.0, 10.0][k % 4]
                 self._species = (sns, stree)
+            ngenes = list(st["genes"][:len(labels)])
+            if st.get("zero_species") is not None and sum(ngenes) - ngenes[st["zero_species"] % len(ngenes)] >= 2:
+                ngenes[st["zero_species"] % len(ngenes)] = 0
             if sim == "containing_tree":
                 # the third interface to the same simulation: a species tree that holds its gene trees
                 from dendropy.model import reconcile
                 mapping = dendropy.TaxonNamespaceMapping.create_contained_taxon_mapping(
-                    containing_taxon_namespace=sns, num_contained=list(st["genes"][:len(labels)]))
+                    containing_taxon_namespace=sns, num_contained=ngenes)
                 ct = reconcile.ContainingTree(containing_tree=stree, contained_taxon_namespace=mapping.domain_taxon_namespace,
                                               contained_to_containing_taxon_map=mapping)
                 gt = ct.simulate_contained_kingman(default_pop_size=st["pop_size"] or 1, rng=rng)
@@ -147,7 +152,7 @@ class C18(Machine):
                 return "contained", gt, (ct, g2s)
             if sim == "contained_coalescent":
                 mapping = dendropy.TaxonNamespaceMapping.create_contained_taxon_mapping(
-                    containing_taxon_namespace=sns, num_contained=list(st["genes"][:len(labels)]))
+                    containing_taxon_namespace=sns, num_contained=ngenes)
                 gt = coalescent.contained_coalescent_tree(stree, mapping, default_pop_size=st["pop_size"] or 1, rng=rng)
                 g2s = dict((g.label, mapping[g].label) for g in mapping.domain_taxon_namespace)
                 return "contained", gt, (stree, g2s)
